@@ -13,7 +13,13 @@ Case families of the subprocess stream (`family` in the recorded input):
             is an integral shift, so the reference point is exact
   masked    a template mask file (--template_mask) that is tight around an off-centre particle, the target is clutter
             everywhere except under the (rotated) mask: only a correctly aligned mask gives the planted copy score 1
-Every family is crossed with the call-time dimensions of the two tools (see `_options`)."""
+Every family is crossed with the call-time dimensions of the two tools (see `_options`).
+
+In-process streams (run before the subprocess streams; Model/C18Cli.lean): the scripts are imported from the repo under test and
+their own functions are called on generated argument namespaces / result files - postprocess.main (window, score range, limit on
+the number of peaks, rotation look-up, peak-list pass-through), postprocess.parse_args, load_match_template_output,
+match_template.parse_rotation_logic / compute_schedule / load_and_validate_mask / parse_args with the wrapped library calls
+replaced by recording stubs, match_template.main with the search and the schedule oracle stubbed."""
 import hashlib
 import os
 import subprocess
@@ -32,8 +38,17 @@ RULE = ("subprocess runs of scripts/match_template.py and scripts/postprocess.py
         "output location} x post-processing options {number of peaks, min distance, minimum / maximum score incl. ties, "
         "boundary distance, mask, re-read orientations, oversampling}; planted positions interior and next to the border, "
         "planted rotation from the 24-member set; pickle container on generated result tuples with ndarray / tuple / memmap "
-        "members (dtypes, read-only maps, output directories, rewritten paths). distinct = distinct option tuples")
-ASSUMPTIONS = ["PeakCallerScipy and the unnormalised scores CC / LCC are exercised with interior placements only (C05's border "
+        "members (dtypes, read-only maps, output directories, rewritten paths); in-process calls of the scripts' own functions: "
+        "postprocess.main on generated score-map / peak-list results x {boundary distance 0..4, --mask_edges, limits 1..size+5, minimum / "
+        "maximum scores incl. ties, --target_mask, all-negative maps, five peak callers} vs the Lean window / range / limit model, "
+        "postprocess.parse_args, background subtraction on dyadic maps, parse_rotation_logic, compute_schedule, load_and_validate_mask "
+        "(shapes up to 10^6, sampling-rate rounding ties, broadcasting), match_template.parse_args, match_template.main with the search "
+        "stubbed (flags -> scan_subsets arguments, analyzer, target mask, written layout). distinct = distinct option tuples")
+ASSUMPTIONS = ["in-process postprocess stream: the exact model is that of PeakCallerSort with --min_distance 0 on score maps with distinct non-zero "
+               "integer values; a limit on the number of peaks is never placed inside a block of equal (zeroed) values (numpy's partition does "
+               "not specify which of them it keeps); the other peak callers are checked for inclusion in the surviving set only; boundary distances "
+               "are non-negative (a negative one is rejected by the peak caller's constructor)",
+               "PeakCallerScipy and the unnormalised scores CC / LCC are exercised with interior placements only (C05's border "
                "exception for the external local-maximum finder; CC / LCC are not bounded by the planted value at mirrored borders)",
                "with automatic centring the template is resampled about its centre of mass (interpolation): the best "
                "orientation must be within 1 voxel (per axis) of the planted centre of mass; when the centre of mass is a "
@@ -50,7 +65,10 @@ ASSUMPTIONS = ["PeakCallerScipy and the unnormalised scores CC / LCC are exercis
                "--peak_oversampling f refines inside a window of ceil(1.5 f) / f voxels centred on the integer peak: the refined best "
                "position must stay within 0.75 voxel of the reference point"]
 TRUSTED = ["C18: CPython pickle, numpy.memmap, mrcfile; the composition rests on the C01-C05/C11 theorems plus "
-           "Pm.C18.planted_window_at_reference / pipeline_best_is_planted"]
+           "Pm.C18.planted_window_at_reference / pipeline_best_is_planted",
+           "C18 in-process streams: argparse; the stubs standing in for scan_subsets / compute_parallelization_schedule / Density.from_file / the "
+           "rotation samplers record their arguments and return canned values (the library functions themselves are covered by C02 / C05 / C10 / C15); "
+           "euler_from_rotationmatrix is used to predict the reported angles"]
 
 SCORES = ["FLC", "FLCSphericalMask", "CORR", "CAM", "MCC", "CC", "LCC"]
 CALLERS = ["PeakCallerMaximumFilter", "PeakCallerSort", "PeakCallerFast", "PeakCallerRecursiveMasking", "PeakCallerScipy"]
@@ -205,6 +223,894 @@ def _pickle_cases(ctx, d, rng, tmp):
         if rewritten:
             ctx.count("pickle:rewritten-path")
     ctx.sample({"pickle_items": desc_eff})
+
+
+# ------------------------------------------------------------------------------------------------------------------
+# the decision logic of the two scripts, called in-process (their own functions, imported from the repo under test)
+# against the executable Lean model (Model/C18Cli.lean)
+# ------------------------------------------------------------------------------------------------------------------
+_SCRIPTS = {}
+
+
+def _script(name):
+    """scripts/<name>.py of the repo under test as a module (its `main` is not run on import)"""
+    if name not in _SCRIPTS:
+        import importlib.util
+        path = os.path.join(env.REPO, "scripts", name + ".py")
+        spec = importlib.util.spec_from_file_location("pv_c18_script_" + name, path)
+        mod = importlib.util.module_from_spec(spec)
+        spec.loader.exec_module(mod)
+        _SCRIPTS[name] = mod
+    return _SCRIPTS[name]
+
+
+def _in_process(fn, argv):
+    """run `fn` with sys.argv = argv, output swallowed, environment restored; returns (kind, value)"""
+    import contextlib
+    import io
+    old_argv, old_env = sys.argv, dict(os.environ)
+    sys.argv = list(argv)
+    try:
+        with contextlib.redirect_stdout(io.StringIO()), contextlib.redirect_stderr(io.StringIO()):
+            return "ok", fn()
+    except SystemExit as e:
+        return "exit", e.code
+    except Exception as e:  # noqa
+        return "raised", f"{type(e).__name__}: {e}"
+    finally:
+        sys.argv = old_argv
+        os.environ.clear()
+        os.environ.update(old_env)
+
+
+_EULER = {}
+
+
+def _tsv_rows(path, ndim):
+    """orientation file -> [[pos], score] sorted by descending score, then position"""
+    if not os.path.exists(path):
+        return None
+    header, tab, n = _read_tsv(path)
+    axes = ["z", "y", "x"][:ndim]
+    rows = []
+    for i in range(n):
+        pos = [float(tab[a][i]) for a in axes]
+        sc = float(tab["score"][i])
+        rows.append([[int(round(x)) for x in pos], int(round(sc)), all(x == round(x) for x in pos) and sc == round(sc)])
+        _EULER[(path, tuple(rows[-1][0]))] = [float(tab[a][i]) for a in ("euler_z", "euler_y", "euler_x")]
+    return rows
+
+
+def _canon(rows):
+    return sorted(([list(p), int(sc)] for p, sc in rows), key=lambda r: (-r[1], r[0]))
+
+
+def _postprocess_cases(ctx, d, rng, tmp):
+    """postprocess.main on generated result files (score maps and peak lists), PeakCallerSort with --min_distance 0: the reported
+    orientations are exactly what the window / score-range / limit decisions leave"""
+    import argparse
+    from tme import Density
+    from tme.matching_utils import write_pickle
+    pp = _script("postprocess")
+    n = ctx.budget(120, 800)
+    wd = os.path.join(tmp, "ppcli")
+    os.makedirs(wd, exist_ok=True)
+    templates = {}
+
+    def template_for(tshape):
+        key = tuple(tshape)
+        if key not in templates:
+            fn = os.path.join(wd, "tpl_" + "_".join(map(str, key)) + ".mrc")
+            Density(np.ones(key, dtype=np.float32), sampling_rate=1.0, origin=(0,) * len(key)).to_file(fn)
+            templates[key] = fn
+        return templates[key]
+
+    reqs, cases = [], []
+    for it in range(n):
+        D = 3 if rng.random() < 0.7 else 2
+        shape = [int(x) for x in rng.integers(3, 8 if D == 3 else 12, size=D)]
+        size = int(np.prod(shape))
+        tshape = [int(x) for x in rng.integers(2, 7, size=D)]
+        cli = argparse.Namespace(template=template_for(tshape), target="target.mrc", no_centering=True, template_mask=None, target_mask=None)
+        lay = d.call("c18.layout", peak_calling=bool(rng.random() < 0.2), ndim=D)
+        meta = (np.zeros(D), np.zeros(D), np.ones(D), cli)
+        # score range: absent, inside the distribution (ties with an actual score included), outside
+        def bound(vals):
+            r = rng.random()
+            if r < 0.45:
+                return None
+            if r < 0.8:
+                return int(vals[int(rng.integers(0, len(vals)))])
+            return int(rng.integers(-size, size + 1))
+        prefix = os.path.join(wd, f"o{it}")
+        # the exact model is that of PeakCallerSort with --min_distance 0 (every voxel is a candidate); the other callers choose their
+        # own candidates (C05) but share the window / range filters: for them only the inclusion in the surviving set is checked
+        caller = "PeakCallerSort"
+        if lay["score_map"] and rng.random() < 0.25:
+            caller = CALLERS[int(rng.integers(0, len(CALLERS)))]
+        argv = ["postprocess.py", "--output_prefix", prefix, "--peak_caller", caller, "--min_distance", "0" if caller == "PeakCallerSort" else str(int(rng.integers(1, 3)))]
+        if lay["score_map"]:
+            # distinct non-zero integer scores; now and then all negative (a zeroed border then outranks every inside voxel)
+            mode = ["mixed", "mixed", "positive", "negative"][int(rng.integers(0, 4))]
+            vals = rng.permutation(size) + 1
+            if mode == "mixed":
+                vals = np.where(vals > size // 3, vals - size // 3, vals - size // 3 - 1)
+            elif mode == "negative":
+                vals = -vals
+            scores = vals.reshape(shape).astype(np.float32)
+            # rotation look-up: the rotations member indexes the rotation table; in 3-D one index has no entry (reported as zero angles)
+            if D == 3:
+                rot_idx = rng.integers(0, 6, size=shape).astype(np.float32)
+                table = {float(i): np.asarray(S.grid_rotations(3)[int(j)][2], dtype=np.float32) for i, j in enumerate(rng.permutation(24)[:5])}
+            else:
+                rot_idx = np.zeros(shape, dtype=np.float32)
+                table = {0.0: np.eye(D, dtype=np.float32)}
+            members = {"scores": scores, "offset": np.zeros(D, dtype=int), "rotations": rot_idx,
+                       "rotation_mapping": table, "meta": meta}
+            dd = [0, 0, 1, 1, 2, 3, 4][int(rng.integers(0, 7))]
+            mask_edges = bool(rng.random() < 0.3)
+            # two regimes: a finite limit on the number of peaks (no --minimum_score, which lifts it), or a minimum score
+            if rng.random() < 0.55:
+                lo, hi = None, bound(vals)
+                nop = [None, 1, 2, 3, 5, 10, size // 2, size, size + 5][int(rng.integers(0, 9))]
+            else:
+                lo, hi = bound(vals), bound(vals)
+                nop = [None, 3][int(rng.integers(0, 2))]
+            mask = None
+            if rng.random() < 0.25:
+                mask = (rng.random(shape) < 0.7).astype(np.float32)
+                mfn = os.path.join(wd, f"m{it}.mrc")
+                Density(mask, sampling_rate=1.0, origin=(0,) * D).to_file(mfn)
+                argv += ["--target_mask", mfn]
+            # the limit must not cut through a block of equal (zeroed) values: which of them numpy's partition keeps is not specified
+            eff = d.call("c18.postprocess", shape=shape, scores=[int(x) for x in vals], mask=None, lo=lo, hi=hi, mask_edges=mask_edges,
+                         d=dd, tshape=tshape, has_nfp=False, number_of_peaks=nop)
+            masked = scores * (mask if mask is not None else 1.0)
+            if eff["d"] > 0:
+                win = np.zeros(shape, dtype=bool)
+                win[tuple(slice(eff["d"], max(eff["d"], s - eff["d"])) for s in shape)] = True
+                masked = np.where(win, masked, 0.0)
+            flat = np.sort(masked.reshape(-1))[::-1]
+            k = eff["k"]
+            if k < size and flat[k - 1] == flat[k]:
+                nop = int((flat >= flat[k - 1]).sum())
+                ctx.count("postprocess-cli:limit moved off a tie")
+            if dd:
+                argv += ["--min_boundary_distance", str(dd)]
+            if mask_edges:
+                argv += ["--mask_edges"]
+            if nop is not None:
+                argv += ["--number_of_peaks", str(nop)]
+            req = ("c18.postprocess", dict(shape=shape, scores=[int(x) for x in vals],
+                                           mask=None if mask is None else [int(x) for x in mask.reshape(-1)], lo=lo, hi=hi,
+                                           mask_edges=mask_edges, d=dd, tshape=tshape, has_nfp=False, number_of_peaks=nop))
+            inp = {"kind": "score map", "shape": shape, "template": tshape, "scores": mode, "d": dd, "mask_edges": mask_edges, "lo": lo, "hi": hi,
+                   "number_of_peaks": nop, "target_mask": mask is not None, "argv": argv[3:]}
+            ctx.count(f"postprocess-cli:score map:{mode}")
+            ctx.count("postprocess-cli:boundary " + ("mask_edges" if mask_edges and not dd else "0" if not dd else "d>0"))
+        else:
+            m = int(rng.integers(1, 9))
+            tr = np.stack([rng.integers(0, s, size=m) for s in shape], axis=1)
+            vals = rng.integers(-20, 21, size=m)
+            members = {"translations": tr, "peak_rotations": np.stack([np.eye(D)] * m).astype(np.float32),
+                       "peak_scores": vals.astype(np.float32), "details": np.zeros(m), "meta": meta}
+            lo, hi = bound(vals), bound(vals)
+            dd = int(rng.integers(0, 3))     # ignored for a peak list
+            if dd:
+                argv += ["--min_boundary_distance", str(dd)]
+            req = ("c18.ppPeaks", dict(cands=[[[int(x) for x in t], int(v)] for t, v in zip(tr, vals)], lo=lo, hi=hi))
+            inp = {"kind": "peak list", "shape": shape, "n": m, "lo": lo, "hi": hi, "d": dd, "argv": argv[3:]}
+            ctx.count("postprocess-cli:peak list")
+        if lo is not None:
+            argv += ["--minimum_score", str(lo)]
+        if hi is not None:
+            argv += ["--maximum_score", str(hi)]
+        ctx.count("postprocess-cli:range " + ("none" if lo is None and hi is None else "min" if hi is None else "max" if lo is None else "both"))
+        # the tuple is assembled from the shared layout definition: position i holds the member the writer puts there
+        out = os.path.join(wd, f"r{it}.pickle")
+        write_pickle([members[name] for name in lay["writer"]], out)
+        argv += ["--input_file", out]
+        kind, val = _in_process(pp.main, argv)
+        rows = _tsv_rows(prefix + ".tsv", D)
+        reqs.append(req)
+        if lay["score_map"] and rows is not None and caller == "PeakCallerSort":
+            from tme.matching_utils import euler_from_rotationmatrix
+            bad = []
+            for pos, _, _ in rows:
+                m = table.get(float(rot_idx[tuple(pos)]))
+                want = np.zeros(3) if m is None else np.asarray(euler_from_rotationmatrix(m), dtype=float)
+                got = np.asarray(_EULER.get((prefix + ".tsv", tuple(pos)), [np.nan] * 3))
+                if not np.allclose(got, want, atol=1e-4):
+                    bad.append({"pos": pos, "index": float(rot_idx[tuple(pos)]), "got": got.tolist(), "want": want.tolist()})
+            ctx.spec("the rotation reported for a voxel is the rotation-table entry of the rotations member at that voxel (zero angles without an entry)",
+                     inp, not bad, bad[:3], key="postprocess-cli:rotation-lookup")
+        _EULER.clear()
+        inp["peak_caller"] = caller
+        ctx.count("postprocess-cli:caller " + caller)
+        cases.append((inp, lay, kind, val, rows, D))
+    answers = d.batch(reqs)
+    for (inp, lay, kind, val, rows, D), ans in zip(cases, answers):
+        if inp["peak_caller"] != "PeakCallerSort":
+            if kind == "raised":
+                ctx.count("postprocess-cli:other caller raised (C05's domain)")
+                continue
+            impl = [] if rows is None else [[p, sc] for p, sc, _ in rows]
+            ctx.spec("every reported orientation lies within the boundary window and score range (any peak caller)", inp,
+                     all([p, sc] in ans["survivors"] for p, sc in impl), {"reported": impl[:5]}, key="postprocess-cli:outside-window-or-range")
+            ctx.distinct(("ppcli-other", inp["peak_caller"], inp["d"], inp["lo"] is None, inp["hi"] is None))
+            continue
+        if kind == "raised":
+            ctx.spec("postprocess.main handles a well-formed result file", inp, False, val, key="postprocess-cli:raised")
+            continue
+        model = ans["reported"] if lay["score_map"] else ans
+        impl = [] if rows is None else [[p, sc] for p, sc, _ in rows]
+        # "Found no peaks": exit(-1) and no file; otherwise exit(0) after the orientation file is written (integral positions and scores)
+        ctx.agree("postprocess.main (in-process): reported orientations vs the window / range / limit model", inp,
+                  {"rows": _canon(impl), "exit": [kind, val], "file": rows is not None, "integral": all(e for _, _, e in rows or [])},
+                  {"rows": _canon(model), "exit": ["exit", 0 if (model or not lay["score_map"]) else -1],
+                   "file": bool(model) or not lay["score_map"], "integral": True})
+        if lay["score_map"]:
+            sv = ans["survivors"]
+            best_ok = (not impl) or (not sv) or max(sc for _, sc in impl) <= max(sc for _, sc in sv)
+            sub_ok = all([p, sc] in sv for p, sc in impl)
+            ctx.spec("every reported orientation lies within the boundary window and score range; none beats the best survivor", inp,
+                     bool(best_ok and sub_ok), {"reported": impl[:5]}, key="postprocess-cli:outside-window-or-range")
+            if ans["k"] >= int(np.prod(inp["shape"])):
+                ctx.spec("without an effective limit every voxel in window and range is reported", inp, _canon(impl) == _canon(sv),
+                         {"reported": len(impl), "survivors": len(sv)}, key="postprocess-cli:survivor-missing")
+            if sv and not model:
+                ctx.count("postprocess-cli:limit consumed before the window (nothing reported, something survives)")
+        ctx.distinct(("ppcli", inp["kind"], inp.get("scores"), inp["d"], inp.get("mask_edges"), inp["lo"] is None, inp["hi"] is None,
+                      inp.get("number_of_peaks"), inp.get("target_mask")))
+    ctx.sample({"postprocess_cli": cases[0][0]})
+
+
+def _postprocess_args_cases(ctx, d, rng, tmp):
+    """postprocess.parse_args: number of peaks, background files, RELION box"""
+    pp = _script("postprocess")
+    n = ctx.budget(60, 400)
+    reqs, cases = [], []
+    for it in range(n):
+        nin = int(rng.integers(1, 4))
+        argv = ["postprocess.py", "--output_prefix", "o", "--input_file"] + [f"in{i}.pickle" for i in range(nin)]
+        r = rng.random()
+        nbg = None if r < 0.3 else 1 if r < 0.5 else nin if r < 0.75 else int(rng.integers(1, 5))
+        bg = None if nbg is None else [f"bg{i}.pickle" for i in range(nbg)]
+        if bg is not None:
+            argv += ["--background_file"] + bg
+        has_min = bool(rng.random() < 0.35)
+        has_nfp = bool(rng.random() < 0.2)
+        nop = None if rng.random() < 0.4 else int(rng.integers(1, 5000))
+        if has_min:
+            argv += ["--minimum_score", str(float(rng.integers(-3, 4)) / 4)]
+        if has_nfp:
+            argv += ["--n_false_positives", str(int(rng.integers(1, 50)))]
+        if nop is not None:
+            argv += ["--number_of_peaks", str(nop)]
+        box = int(rng.integers(1, 200))
+        relion = bool(rng.random() < 0.5)
+        argv += ["--subtomogram_box_size", str(box)]
+        if relion:
+            argv += ["--output_format", "relion"]
+        kind, val = _in_process(pp.parse_args, argv)
+        if kind == "ok":
+            impl = {"number_of_peaks": int(val.number_of_peaks), "background": list(val.background_file),
+                    "box": int(val.subtomogram_box_size)}
+        else:
+            impl = {"error": val.split(":")[0] if isinstance(val, str) else val}
+        reqs.append(("c18.ppArgs", dict(has_min=has_min, has_nfp=has_nfp, number_of_peaks=nop, background=bg, n_inputs=nin, box=box)))
+        cases.append(({"argv": argv[1:]}, impl, relion, box))
+        ctx.count("postprocess-args:background " + ("absent" if bg is None else "once" if nbg == 1 else "per input" if nbg == nin else "mismatch"))
+        ctx.count("postprocess-args:limit " + ("lifted" if has_min or has_nfp else "default" if nop is None else "given"))
+    for (inp, impl, relion, box), ans in zip(cases, d.batch(reqs)):
+        if isinstance(ans["background"], str):
+            model = {"error": ans["background"]}
+        else:
+            model = {"number_of_peaks": ans["number_of_peaks"], "background": ans["background"], "box": ans["relion_box"] if relion else box}
+        ctx.agree("postprocess.parse_args (in-process): number of peaks, background files, box size vs the model", inp, impl, model)
+        ctx.distinct(("ppargs", tuple(sorted(model.keys())), relion))
+
+
+class _BeProxy:
+    """stands in for `tme.backends.backend` inside match_template: a canned list of importable backends, backend changes recorded
+    (not carried out), everything else answered by the real object"""
+
+    def __init__(self, real, available, calls):
+        self._real, self._available, self._calls = real, list(available), calls
+
+    def available_backends(self):
+        return list(self._available)
+
+    def change_backend(self, backend_name=None, **kw):
+        self._calls.append((backend_name, kw.get("device"), "default_dtype" in kw))
+
+    def __getattr__(self, name):
+        return getattr(self._real, name)
+
+
+class _FakeMask:
+    def __init__(self, shape, rate):
+        self.shape = tuple(int(x) for x in shape)
+        self.sampling_rate = np.array(rate, dtype=float)
+        self.origin = np.zeros(len(self.shape))
+
+
+def _match_template_cases(ctx, d, rng, tmp):
+    """match_template.py: parse_rotation_logic, compute_schedule, load_and_validate_mask, parse_args - the script's own functions
+    with the library calls they wrap replaced by recording stubs"""
+    import argparse
+    import types
+    mt = _script("match_template")
+    n = ctx.budget(60, 400)
+
+    # ---- parse_rotation_logic
+    def milli(lo, hi):
+        return int(rng.integers(lo, hi))
+    reqs, cases = [], []
+    for it in range(n):
+        r = rng.random()
+        if r < 0.6:
+            ang = [milli(1000, 179999), 179999, 180000, 180001, milli(180000, 400000), 60000, 200000, 179500][int(rng.integers(0, 8))]
+        else:
+            ang = None
+        opt = lambda: None if rng.random() < 0.4 else milli(500, 90000)   # noqa: E731
+        args = dict(angular=ang, no_optimized=bool(rng.random() < 0.4), cone_angle=None if ang is not None else milli(1000, 90000),
+                    cone_sampling=opt(), axis_angle=[360000, milli(1000, 360000)][int(rng.integers(0, 2))], axis_sampling=opt(),
+                    axis_symmetry=int(rng.integers(1, 7)) * 1000)
+        f = lambda v: None if v is None else v / 1000.0   # noqa: E731
+        ns = argparse.Namespace(angular_sampling=f(ang), no_use_optimized_set=args["no_optimized"], cone_angle=f(args["cone_angle"]),
+                                cone_sampling=f(args["cone_sampling"]), axis_angle=f(args["axis_angle"]), axis_sampling=f(args["axis_sampling"]),
+                                axis_symmetry=f(args["axis_symmetry"]))
+        ndim = int(rng.integers(2, 4))
+        seen = []
+        sentinel = np.full((7, ndim, ndim), 3.0)
+
+        def grid(angular_sampling, dim, use_optimized_set):
+            seen.append({"branch": "grid", "angular": int(round(angular_sampling * 1000)), "optimized": bool(use_optimized_set), "dim": dim})
+            return sentinel
+
+        def cone(cone_angle, cone_sampling, axis_angle, axis_sampling, n_symmetry):
+            m = lambda v: None if v is None else int(round(v * 1000))   # noqa: E731
+            seen.append({"branch": "cone", "cone_angle": m(cone_angle), "cone_sampling": m(cone_sampling), "axis_angle": m(axis_angle),
+                         "axis_sampling": m(axis_sampling), "n_symmetry": m(n_symmetry)})
+            return sentinel
+        old = mt.get_rotation_matrices, mt.get_rotations_around_vector
+        mt.get_rotation_matrices, mt.get_rotations_around_vector = grid, cone
+        try:
+            rot = mt.parse_rotation_logic(ns, ndim)
+            err = None
+        except Exception as e:  # noqa
+            rot, err = None, f"{type(e).__name__}: {e}"
+        finally:
+            mt.get_rotation_matrices, mt.get_rotations_around_vector = old
+        if err is not None or len(seen) != 1:
+            impl = {"error": err, "calls": len(seen)}
+        else:
+            call = dict(seen[0])
+            if call["branch"] == "grid":
+                ok_dim = call.pop("dim") == ndim
+                if rot is not sentinel:
+                    call["branch"] = "identity" if (np.shape(rot) == (1, ndim, ndim) and np.array_equal(rot[0], np.eye(ndim))) else "other"
+                if not ok_dim:
+                    call["branch"] += ":wrong-dim"
+            elif rot is not sentinel:
+                call["branch"] = "other"
+            impl = {"plan": call, "axis_sampling_after": None if ns.axis_sampling is None else int(round(ns.axis_sampling * 1000))}
+        reqs.append(("c18.rotPlan", args))
+        cases.append((args, impl))
+    for (args, impl), ans in zip(cases, d.batch(reqs)):
+        ctx.agree("match_template.parse_rotation_logic (in-process): branch and arguments handed to the library vs the model", args, impl, ans)
+        ctx.count("rotation-logic:" + ans["plan"]["branch"])
+        ctx.distinct(("rot", ans["plan"]["branch"], args["no_optimized"], args["axis_sampling"] is None, args["cone_sampling"] is None))
+
+    # ---- compute_schedule
+    reqs, cases = [], []
+    for it in range(n):
+        D = int(rng.integers(2, 4))
+        tmpl = [int(x) for x in rng.integers(2, 9, size=D)]
+        tshape = tuple(int(x) for x in rng.integers(10, 40, size=D))
+        pe, pf = bool(rng.random() < 0.35), bool(rng.random() < 0.5)
+
+        def answer():
+            r = rng.random()
+            if r < 0.15:
+                return None
+            if r < 0.5:
+                sp = [1] * D
+            else:
+                sp = [int(x) for x in rng.integers(1, 4, size=D)]
+            return {"splits": sp, "schedule": [int(rng.integers(1, 5)), int(rng.integers(1, 5))]}
+        table = [{"padding": [0] * D, "answer": answer()}, {"padding": tmpl, "answer": answer()}]
+        calls = []
+
+        def stub(shape1, shape2, shape1_padding, **kw):
+            calls.append({"box": [int(x) for x in shape2], "padding": [int(x) for x in shape1_padding], "shape1": tuple(shape1),
+                          "kw": sorted(kw)})
+            for e in table:
+                if e["padding"] == [int(x) for x in shape1_padding]:
+                    a = e["answer"]
+                    if a is None:
+                        return None, None
+                    return {i: s for i, s in enumerate(a["splits"])}, tuple(a["schedule"])
+            return None, None
+        ns = argparse.Namespace(pad_edges=pe, pad_fourier=pf, cores=4, memory=10 ** 9, use_gpu=False, score="FLC")
+        md = types.SimpleNamespace(_output_template_shape=tuple(tmpl))
+        old = mt.compute_parallelization_schedule
+        mt.compute_parallelization_schedule = stub
+        kind, val = "ok", None
+        try:
+            kind, val = _in_process(lambda: mt.compute_schedule(ns, types.SimpleNamespace(shape=tshape), md, _FakeMask), ["x"])
+        finally:
+            mt.compute_parallelization_schedule = old
+        if kind == "ok":
+            splits, sched = val
+            result = {"splits": [int(splits[i]) for i in range(D)], "schedule": [int(x) for x in sched]}
+        elif kind == "exit" and val == -1:
+            result = None
+        else:
+            result = {"error": str(val)}
+        impl = {"calls": [{"box": c["box"], "padding": c["padding"]} for c in calls], "result": result, "pad_edges_after": bool(ns.pad_edges)}
+        side_ok = all(c["shape1"] == tshape and "max_cores" in c["kw"] and "max_ram" in c["kw"] and "matching_method" in c["kw"]
+                      and "analyzer_method" in c["kw"] for c in calls)
+        inp = {"tmpl": tmpl, "pad_edges": pe, "pad_fourier": pf, "answers": table}
+        reqs.append(("c18.schedule", dict(answers=table, tmpl=tmpl, pad_edges=pe, pad_fourier=pf, pad_filter=False, no_centering=False)))
+        cases.append((inp, impl, side_ok))
+    for (inp, impl, side_ok), ans in zip(cases, d.batch(reqs)):
+        model = {"calls": ans["calls"], "result": ans["result"], "pad_edges_after": ans["pad_edges_after"]}
+        ctx.agree("match_template.compute_schedule (in-process, library call stubbed): calls, result, args.pad_edges vs the model", inp, impl, model)
+        ctx.spec("compute_schedule hands the target shape, cores, memory, score and analyzer to the library on every call", inp, bool(side_ok),
+                 key="schedule-cli:arguments")
+        r = ans["result"]
+        if r is not None and int(np.prod(r["splits"])) > 1:
+            ctx.spec("a split target is searched with padded edges (args.pad_edges on, schedule computed for the padded target)", inp,
+                     impl["pad_edges_after"] is True and impl["calls"][-1]["padding"] == inp["tmpl"], impl, key="schedule-cli:split-without-padding")
+        ctx.count(f"schedule-cli:{len(ans['calls'])} call(s), " + ("exit" if r is None else "split" if int(np.prod(r['splits'])) > 1 else "unsplit"))
+        ctx.distinct(("sched", inp["pad_edges"], inp["pad_fourier"], len(ans["calls"]), r is None))
+
+    # ---- load_and_validate_mask
+    reqs, cases = [], []
+    for it in range(n):
+        D = int(rng.integers(1, 4))
+        # now and then extents around a power of ten: numpy.allclose is a relative test (exact below 100000, off by one passes above)
+        big = rng.random() < 0.2
+        scale = [10 ** 4, 10 ** 5, 10 ** 5, 10 ** 6][int(rng.integers(0, 4))]
+        tshape = [int(x) for x in (rng.integers(scale - 10, scale + 12, size=D) if big else rng.integers(2, 300, size=D))]
+        r = rng.random()
+        mshape = list(tshape)
+        if r < 0.4:
+            pass
+        elif r < 0.6:
+            i = int(rng.integers(0, D))
+            mshape[i] += int(rng.choice([-1, 1, 2]))
+        elif r < 0.7:
+            mshape = mshape[::-1]
+        elif r < 0.8:
+            mshape = [mshape[0]]
+        elif r < 0.9:
+            mshape = mshape + [mshape[-1]]
+        else:
+            mshape = [int(x) for x in rng.integers(2, 300, size=D)]
+        if big and rng.random() < 0.5:
+            mshape = [x + int(rng.choice([-1, 0, 1])) for x in tshape]
+
+        def rate():
+            k = int(rng.integers(0, 4))
+            if k == 0:
+                return int(rng.integers(4, 80)) * 125              # eighths: exact in binary, ties of the rounding included
+            v = int(rng.integers(500, 20000))
+            return v + 1 if v % 10 == 5 else v
+        trate = [rate()] * D if rng.random() < 0.7 else [rate() for _ in range(D)]
+        r2 = rng.random()
+        if r2 < 0.45:
+            mrate = list(trate)
+        elif r2 < 0.8:
+            mrate = [v + int(rng.integers(-6, 7)) for v in trate]
+            mrate = [v + 1 if v % 10 == 5 and v % 125 != 0 else v for v in mrate]
+        elif r2 < 0.9:
+            mrate = [trate[0]]
+        else:
+            mrate = [rate() for _ in range(len(mshape))]
+        if len(mrate) not in (1, len(mshape)):
+            mrate = (mrate * len(mshape))[:len(mshape)]
+        has_path = bool(rng.random() < 0.9)
+        target = _FakeMask(tshape, [v / 1000.0 for v in trate])
+        fake = _FakeMask(mshape, [v / 1000.0 for v in mrate])
+        seen = []
+
+        class FakeDensity:
+            @classmethod
+            def from_file(cls, path, **kw):
+                seen.append((path, kw))
+                return fake
+        old = mt.Density
+        mt.Density = FakeDensity
+        try:
+            out = mt.load_and_validate_mask(mask_target=target, mask_path="mask.mrc" if has_path else None, use_memmap=True)
+            impl = "none" if out is None else "ok" if out is fake else "other"
+            if out is fake and not (np.array_equal(fake.origin, target.origin) and seen == [("mask.mrc", {"use_memmap": True})]):
+                impl = "ok:origin-or-arguments"
+        except ValueError as e:
+            msg = str(e)
+            impl = "shape" if msg.startswith("Expected shape") else "sampling" if msg.startswith("Expected sampling_rate") else \
+                "broadcast" if "broadcast" in msg else "ValueError: " + msg[:80]
+        except Exception as e:  # noqa
+            impl = f"{type(e).__name__}: {e}"[:100]
+        finally:
+            mt.Density = old
+        inp = dict(has_path=has_path, mshape=mshape, tshape=tshape, mrate=mrate, trate=trate)
+        reqs.append(("c18.maskCheck", inp))
+        cases.append((inp, impl))
+    for (inp, impl), ans in zip(cases, d.batch(reqs)):
+        ctx.agree("match_template.load_and_validate_mask (in-process, file reader stubbed): decision vs the model", inp, impl, ans)
+        ctx.count("mask-check:" + ans)
+        ctx.distinct(("maskcheck", ans, len(inp["mshape"]) == len(inp["tshape"]), max(inp["tshape"]) >= 99990))
+
+    # ---- parse_args: cross-option checks, interpolation order, padding / centring flags
+    tilt_file = os.path.join(tmp, "tilts.txt")
+    with open(tilt_file, "w") as fh:
+        fh.write("angles\n0\n")
+    reqs, cases = [], []
+    for it in range(n):
+        argv = ["match_template.py", "-m", "target.mrc", "-i", "template.mrc", "-o", os.path.join(tmp, "unused.pickle")]
+        if rng.random() < 0.7:
+            argv += ["-a", "60"]
+        else:
+            argv += ["--cone_angle", "30", "--cone_sampling", "10"]
+        tilt = [None, None, "file", "number", "range", "word"][int(rng.integers(0, 6))]
+        has_wedge, has_ctf = bool(rng.random() < 0.5), bool(rng.random() < 0.3)
+        if tilt is not None:
+            argv += ["--tilt_angles", {"file": tilt_file, "number": "40", "range": "40,50", "word": "no_such_file_c18"}[tilt]]
+        if has_wedge:
+            argv += ["--wedge_axes", "0,2"]
+        if has_ctf:
+            argv += ["--ctf_file", "ctf.star"]
+        order = int(rng.integers(-2, 5))
+        argv += ["--interpolation_order", str(order)]
+        flags = {k: bool(rng.random() < 0.5) for k in ("pad_edges", "pad_fourier", "pad_filter", "no_centering")}
+        argv += ["--" + k for k, v in flags.items() if v]
+        kind, val = _in_process(mt.parse_args, argv)
+        if kind == "ok":
+            impl = {"check": "ok", "interpolation": val.interpolation_order,
+                    "flags": {k: getattr(val, k, "missing") for k in flags},
+                    "wedge_axes": None if val.wedge_axes is None else list(val.wedge_axes)}
+        else:
+            msg = str(val)
+            impl = {"check": "need-wedge-axes" if "Need to specify --wedge_axes" in msg else
+                    "tilt-neither-file-nor-range" if "is not a file nor a range" in msg else
+                    "need-tilt-angles" if "Need to specify --tilt_angles" in msg else msg[:100]}
+        reqs.append(("c18.mtArgs", dict(has_tilt=tilt is not None, tilt_is_file=tilt == "file", tilt_is_number=tilt in ("number", "range"),
+                                        has_wedge_axes=has_wedge, has_ctf=has_ctf, interpolation_order=order)))
+        cases.append(({"argv": argv[7:]}, impl, flags, has_wedge))
+    for (inp, impl, flags, has_wedge), ans in zip(cases, d.batch(reqs)):
+        model = {"check": ans["check"]}
+        if ans["check"] == "ok":
+            model.update({"interpolation": ans["interpolation"], "flags": flags, "wedge_axes": [0, 2] if has_wedge else None})
+        ctx.agree("match_template.parse_args (in-process): cross-option checks, interpolation order, padding / centring flags vs the model",
+                  inp, impl, model)
+        ctx.count("match-args:" + ans["check"])
+        ctx.distinct(("mtargs", ans["check"], tuple(sorted(flags.items()))))
+
+
+# (importable backends, --backend, --use_gpu, --use_mixed_precision, -p)
+_BACKEND_CORNERS = [(["jax"], None, False, False, True), (["jax", "mlx"], None, False, False, True), (["jax", "mlx"], None, False, False, False),
+                    (["pytorch", "jax"], None, True, False, True), (["jax", "pytorch", "cupy"], None, True, False, True),
+                    (["jax", "pytorch", "cupy"], None, True, False, False), (["cupy", "jax"], None, True, True, False),
+                    (["numpyfftw", "cupy"], "cupy", False, False, False), (["numpyfftw", "pytorch"], "pytorch", False, False, False),
+                    (["numpyfftw", "pytorch"], None, False, True, False), (["pytorch", "jax"], None, False, True, False),
+                    (["numpyfftw", "jax"], "jax", False, False, True), (["mlx"], None, True, False, False), (["pytorch"], None, True, False, True)]
+
+
+def _match_main_cases(ctx, d, rng, tmp):
+    """match_template.main in-process on small generated files, with the search itself (`scan_subsets`) and the schedule oracle
+    (`compute_parallelization_schedule`) replaced by recording stubs: what the glue decides (padding / centring flags, analyzer,
+    schedule calls, target mask, interpolation order) and what it writes (the result tuple) vs the model and the shared layout"""
+    from tme import Density
+    from tme.matching_utils import load_pickle
+    import tme.density
+    mt = _script("match_template")
+    n = ctx.budget(70, 400)
+    wd = os.path.join(tmp, "mtmain")
+    os.makedirs(wd, exist_ok=True)
+    files = []
+    for i, (ns_, ms_) in enumerate([((12, 10, 8), (6, 5, 4)), ((9, 11, 10), (5, 5, 5)), ((14, 9, 9), (4, 7, 6))]):
+        tf, pf_, mf = (os.path.join(wd, f"{nm}{i}.mrc") for nm in ("target", "template", "tmask"))
+        Density(rng.normal(size=ns_).astype(np.float32), sampling_rate=2.0, origin=(1, 2, 3)).to_file(tf)
+        t = np.zeros(ms_, dtype=np.float32)
+        t[1:, 1:-1, :-1] = rng.random((ms_[0] - 1, ms_[1] - 2, ms_[2] - 1)) + 1      # off-centre content: centring changes the box
+        Density(t, sampling_rate=2.0, origin=(0, 0, 0)).to_file(pf_)
+        mask = (rng.random(ns_) < 0.7).astype(np.float32)
+        Density(mask, sampling_rate=2.0, origin=(1, 2, 3)).to_file(mf)
+        files.append((tf, pf_, mf, ns_, ms_, mask))
+    reqs, cases = [], []
+    for it in range(n):
+        tf, pf_, mf, ns_, ms_, mask = files[int(rng.integers(0, len(files)))]
+        flags = {k: bool(rng.random() < 0.4) for k in ("pad_edges", "pad_fourier", "pad_filter", "no_centering")}
+        pc = bool(rng.random() < 0.3)
+        score = ["FLCSphericalMask", "FLC", "CORR", "CAM", "MCC", "CC"][int(rng.integers(0, 6))]
+        tmask = bool(rng.random() < 0.4) or score == "MCC"
+        order = int(rng.integers(-1, 4))
+        out = os.path.join(wd, f"out{it}.pickle")
+        argv = ["match_template.py", "-m", tf, "-i", pf_, "-o", out, "-s", score, "--interpolation_order", str(order)]
+        argv += [["-a", "60"], ["-a", "180"], ["-a", "250"], ["--cone_angle", "20", "--cone_sampling", "10"]][int(rng.integers(0, 4))]
+        argv += ["--" + k for k, v in flags.items() if v]
+        if pc:
+            argv += ["-p"]
+        if tmask:
+            argv += ["--target_mask", mf]
+        # backend selection: a canned set of importable backends, --backend (now and then one that is not importable), GPU, mixed precision
+        names = ["numpyfftw", "pytorch", "jax", "mlx", "cupy"]
+        available = [x for x in names if rng.random() < (0.6 if x == "numpyfftw" else 0.4)] or ["numpyfftw"]
+        use_gpu, mixed = bool(rng.random() < 0.3), bool(rng.random() < 0.25)
+        req = None
+        if rng.random() < 0.35:
+            req = names[int(rng.integers(0, len(names)))] if rng.random() < 0.3 else available[int(rng.integers(0, len(available)))]
+            argv += ["--backend", req]
+        if use_gpu:
+            argv += ["--use_gpu"]
+        if mixed:
+            argv += ["--use_mixed_precision"]
+        be_calls = []
+        # (the corners of the selection are rare under independent draws: the first cases of the stream are set by hand)
+        if it < len(_BACKEND_CORNERS):
+            while "--backend" in argv:
+                del argv[argv.index("--backend"):argv.index("--backend") + 2]
+            argv = [a for a in argv if a not in ("--use_gpu", "--use_mixed_precision", "-p")]
+            available, req, use_gpu, mixed, pc = _BACKEND_CORNERS[it]
+            argv += (["--backend", req] if req else []) + (["--use_gpu"] if use_gpu else []) + (["--use_mixed_precision"] if mixed else []) \
+                + (["-p"] if pc else [])
+
+        def answer():
+            r = rng.random()
+            if r < 0.1:
+                return None
+            sp = [1, 1, 1] if r < 0.5 else [int(x) for x in rng.integers(1, 4, size=3)]
+            return {"splits": sp, "schedule": [int(rng.integers(1, 4)), int(rng.integers(1, 4))]}
+        ans0, ans1 = answer(), answer()
+        rec = {"calls": [], "scan": None, "centered": 0}
+
+        def cps(**kw):
+            rec["calls"].append({"box": [int(x) for x in kw["shape2"]], "padding": [int(x) for x in kw["shape1_padding"]]})
+            a = ans0 if not any(kw["shape1_padding"]) else ans1
+            if a is None:
+                return None, None
+            return {i: s_ for i, s_ in enumerate(a["splits"])}, tuple(a["schedule"])
+
+        def scan(**kw):
+            md = kw["matching_data"]
+            rec["scan"] = {"pad_target_edges": kw.get("pad_target_edges"), "pad_fourier": kw.get("pad_fourier"),
+                           "pad_template_filter": kw.get("pad_template_filter"), "interpolation_order": kw.get("interpolation_order"),
+                           "callback": kw["callback_class"].__name__, "min_distance": kw["callback_class_args"].get("min_distance"),
+                           "job_schedule": [int(x) for x in kw["job_schedule"]],
+                           "target_splits": [int(kw["target_splits"][i]) for i in range(3)]}
+            rec["tmpl"] = [int(x) for x in md._output_template_shape]
+            rec["tshape"] = [int(x) for x in np.shape(md.template)]
+            if kw["callback_class"].__name__ == "MaxScoreOverRotations":
+                shape = tuple(md._output_target_shape)
+                return (np.full(shape, 2.0, dtype=np.float32), np.zeros(3, dtype=int), np.zeros(shape, dtype=np.float32),
+                        {np.eye(3, dtype=np.float32).tobytes(): 0})
+            return (np.array([[1, 2, 3]]), np.eye(3)[None], np.array([0.5]), np.array([0.0]))
+        real_centered = tme.density.Density.centered
+
+        def centered(self, *a, **kw):
+            rec["centered"] += 1
+            return real_centered(self, *a, **kw)
+        old = mt.scan_subsets, mt.compute_parallelization_schedule, mt.be
+        mt.scan_subsets, mt.compute_parallelization_schedule, mt.be = scan, cps, _BeProxy(old[2], available, be_calls)
+        tme.density.Density.centered = centered
+        try:
+            kind, val = _in_process(mt.main, argv)
+        finally:
+            mt.scan_subsets, mt.compute_parallelization_schedule, mt.be = old
+            tme.density.Density.centered = real_centered
+        breq = ("c18.backend", dict(available=available, backend=req, use_gpu=use_gpu, mixed=mixed, peak_calling=pc, interpolation_order=order))
+        if kind == "exit" and val == 2:
+            # argparse: --backend is not among the importable ones
+            ctx.agree("match_template (in-process): a --backend that is not importable is rejected", {"available": available, "backend": req},
+                      "rejected", d.call(*[breq[0]], **breq[1])["choice"])
+            ctx.count("match-main:backend rejected")
+            continue
+        inp = {"argv": [os.path.basename(a) if a.endswith((".mrc", ".pickle")) else a for a in argv[1:]], "answer_unpadded": ans0, "answer_padded": ans1}
+        if kind == "raised" or (kind == "exit" and val != -1):
+            ctx.spec("match_template.main (in-process, search stubbed) runs", inp, False, str(val)[:300], key="match-main:raised")
+            continue
+        impl = {"calls": rec["calls"], "scan": rec["scan"], "centred": rec["centered"] > 0, "exit": val if kind == "exit" else None}
+        if not be_calls:
+            impl["backend"] = "unchanged"
+        else:
+            dev = [c[1] for c in be_calls if c[1] is not None]
+            impl["backend"] = [be_calls[0][0], dev[0] if dev else None]
+            if len({c[0] for c in be_calls}) != 1:
+                impl["backend"] = ["several"] + sorted({str(c[0]) for c in be_calls})
+        impl["mixed precision set"] = any(c[2] for c in be_calls)
+        layout_impl = None
+        if rec["scan"] is not None:
+            data = load_pickle(out)
+            try:
+                layout_impl = {"ndims": [getattr(x, "ndim", None) if isinstance(x, np.ndarray) else None for x in data],
+                               "meta": bool(isinstance(data[-1], tuple) and len(data[-1]) == 4 and np.allclose(data[-1][0], (1, 2, 3))
+                                            and np.allclose(data[-1][2], 2.0) and getattr(data[-1][3], "score", None) == score)}
+            except Exception as e:  # noqa
+                layout_impl = {"error": f"{type(e).__name__}: {e}"[:200]}
+            if pc or not isinstance(data[0], np.ndarray):
+                impl["mask_applied"] = False
+                data = None
+            if data is not None:
+                sm = np.asarray(data[0])        # the stub's score map is 2 everywhere
+                impl["mask_applied"] = True if np.array_equal(sm, 2.0 * mask) else False if np.array_equal(sm, np.full(ns_, 2.0)) else "other"
+        # the padding the stub is keyed on: zeros / the template box MatchingData reports (known once the glue has run)
+        tmpl = rec.get("tmpl") or (rec["calls"][0]["padding"] if rec["calls"] and any(rec["calls"][0]["padding"]) else
+                                   rec["calls"][-1]["padding"] if rec["calls"] and any(rec["calls"][-1]["padding"]) else list(ms_))
+        if flags["pad_fourier"] and rec["calls"]:
+            tmpl = rec["calls"][0]["box"]
+        reqs.append(("c18.schedule", dict(answers=[{"padding": [0, 0, 0], "answer": ans0}, {"padding": tmpl, "answer": ans1}], tmpl=tmpl,
+                                          use_tshape=1, tshape=rec.get("tshape") or tmpl, peak_calling=int(pc), has_target_mask=int(tmask),
+                                          is_mcc=int(score == "MCC"), **flags)))
+        reqs.append(breq)
+        reqs.append(("c18.layout", dict(peak_calling=pc, ndim=3)))
+        inp["available backends"] = available
+        cases.append((inp, impl, layout_impl, flags, pc, mixed))
+        ctx.count("match-main:" + ("peak calling" if pc else "score map") + (", target mask" if tmask else ""))
+    answers = d.batch(reqs)
+    for i, (inp, impl, layout_impl, flags, pc, mixed) in enumerate(cases):
+        ans, ia, lay = answers[3 * i], answers[3 * i + 1], answers[3 * i + 2]
+        ran = ans["result"] is not None
+        model = {"calls": ans["calls"], "exit": None if ran else -1, "centred": ans["scan"]["centre"], "scan": None,
+                 "backend": ia["choice"], "mixed precision set": bool(mixed and isinstance(ia["choice"], list))}
+        ctx.count("match-main:backend " + (ia["choice"] if isinstance(ia["choice"], str) else ia["choice"][0]))
+        if ran:
+            model["scan"] = {"pad_target_edges": ans["scan"]["pad_target_edges"], "pad_fourier": ans["scan"]["pad_fourier"],
+                             "pad_template_filter": ans["scan"]["pad_template_filter"], "interpolation_order": ia["interpolation"],
+                             "callback": ans["callback"], "min_distance": ans["scan"]["min_distance"],
+                             "job_schedule": ans["result"]["schedule"], "target_splits": ans["result"]["splits"]}
+            model["mask_applied"] = ans["mask_applied"]
+        ctx.agree("match_template.main (in-process, search and schedule oracle stubbed): schedule calls, scan_subsets arguments, analyzer, "
+                  "centring, target mask vs the model", inp, impl, model)
+        if ran:
+            ctx.agree("match_template.main writes the result tuple in the shared layout (ndim of every member, metadata record last)", inp,
+                      layout_impl, {"ndims": lay["ndims"], "meta": True})
+            if int(np.prod(ans["result"]["splits"])) > 1:
+                ctx.spec("a search that runs split pads the target edges", inp, impl["scan"] is not None and impl["scan"]["pad_target_edges"] is True,
+                         impl["scan"], key="match-main:split-without-padding")
+        ctx.count(f"match-main:{len(ans['calls'])} schedule call(s), " + ("exit" if not ran else "split" if int(np.prod(ans['result']['splits'])) > 1 else "unsplit"))
+        ctx.distinct(("mtmain", tuple(sorted(flags.items())), pc, ran, len(ans["calls"]), str(ia["choice"])))
+
+
+def _background_cases(ctx, d, rng, tmp):
+    """postprocess.load_match_template_output: background subtraction on dyadic score maps (exact in binary) vs the fraction model"""
+    from tme.matching_utils import write_pickle
+    pp = _script("postprocess")
+    n = ctx.budget(25, 150)
+    wd = os.path.join(tmp, "ppbg")
+    os.makedirs(wd, exist_ok=True)
+    reqs, cases = [], []
+    for it in range(n):
+        shape = tuple(int(x) for x in rng.integers(2, 5, size=int(rng.integers(1, 4))))
+        den = [4, 8, 16][int(rng.integers(0, 3))]
+        fg = rng.integers(-den, 2 * den + 1, size=shape)
+        regime = ["below one", "below one", "any", "zero"][int(rng.integers(0, 4))]
+        bg = rng.integers(-den, den, size=shape) if regime == "below one" else rng.integers(-den, 2 * den + 1, size=shape) if regime == "any" \
+            else np.zeros(shape, dtype=int)
+        if regime == "any":
+            bg.reshape(-1)[0] = den                      # a background score of exactly 1: division by zero
+        if rng.random() < 0.3:
+            bg.reshape(-1)[-1] = fg.reshape(-1)[-1]      # a voxel that scores like its background
+        fgp, bgp = os.path.join(wd, f"fg{it}.pickle"), os.path.join(wd, f"bg{it}.pickle")
+        rest = [np.zeros(len(shape), dtype=int), np.zeros(shape, dtype=np.float32), {}, ("meta",)]
+        write_pickle([(fg / den).astype(np.float32)] + rest, fgp)
+        write_pickle([(bg / den).astype(np.float32)] + rest, bgp)
+        with np.errstate(all="ignore"):
+            try:
+                out = np.asarray(pp.load_match_template_output(fgp, bgp)[0], dtype=np.float64)
+                plain = np.asarray(pp.load_match_template_output(fgp, None)[0], dtype=np.float64)
+            except Exception as e:  # noqa
+                ctx.spec("load_match_template_output handles two score maps of one shape", {"shape": shape}, False, repr(e), key="background:raised")
+                continue
+        reqs.append(("c18.bgNorm", dict(den=den, fg=[int(x) for x in fg.reshape(-1)], bg=[int(x) for x in bg.reshape(-1)])))
+        cases.append(({"shape": list(shape), "den": den, "regime": regime, "fg": [int(x) for x in fg.reshape(-1)], "bg": [int(x) for x in bg.reshape(-1)]},
+                      out.reshape(-1), bool(np.array_equal(plain, fg / den))))
+        ctx.count("background:" + regime)
+    for (inp, out, plain_ok), ans in zip(cases, d.batch(reqs)):
+        def same(x, m):
+            if m == "inf":
+                return bool(np.isinf(x) and x > 0)
+            v = m[0] / m[1]
+            return bool(np.isfinite(x) and abs(x - v) <= 1e-6 * max(1.0, abs(v)))
+        bad = [i for i, (x, m) in enumerate(zip(out, ans)) if not same(x, m)]
+        ctx.agree("postprocess.load_match_template_output (in-process): (fg - bg) / (1 - bg) clipped at 0, voxel by voxel, vs the fraction model",
+                  inp, {"differing voxels": bad, "values": [float(out[i]) for i in bad[:5]]}, {"differing voxels": [], "values": []})
+        ctx.spec("background-normalised scores are never negative; without a background file the scores are returned as stored", inp,
+                 bool(np.all(np.nan_to_num(out, nan=-1.0) >= 0) and plain_ok), key="background:negative-or-changed")
+        ctx.distinct(("bg", inp["regime"], len(inp["shape"]), inp["den"]))
+
+
+def _merge_cases(ctx, d, rng, tmp):
+    """postprocess.main with several --input_file: the loop of merge_outputs (elementwise maximum, entity labels).  The score
+    normalisation the loop calls (tme.matching_exhaustive.normalize_under_mask) does not exist in the library: it is supplied as a
+    no-op stand-in for the duration of the call, so that the script's own loop runs; without it the tool stops with an ImportError
+    (recorded as a note)"""
+    import argparse
+    import tme.matching_exhaustive as me
+    from tme import Density
+    from tme.matching_utils import write_pickle
+    pp = _script("postprocess")
+    n = ctx.budget(20, 120)
+    wd = os.path.join(tmp, "ppmerge")
+    os.makedirs(wd, exist_ok=True)
+    tfn = os.path.join(wd, "template.mrc")
+    Density(np.ones((2, 2), dtype=np.float32), sampling_rate=1.0, origin=(0, 0)).to_file(tfn)
+    cli = argparse.Namespace(template=tfn, target="target.mrc", no_centering=True, template_mask=None, target_mask=None)
+    meta = (np.zeros(2), np.zeros(2), np.ones(2), cli)
+    reqs, cases = [], []
+    had = hasattr(me, "normalize_under_mask")
+    for it in range(n):
+        side = int(rng.integers(5, 9))
+        shape = (side, side)
+        K = int(rng.integers(2, 4))
+        dd = int(rng.integers(1, 3))
+        maps = [rng.integers(1, 7, size=shape) for _ in range(K)]            # small positive range: ties between the inputs are common
+        files = []
+        for i, m in enumerate(maps):
+            fn = os.path.join(wd, f"in{it}_{i}.pickle")
+            write_pickle([m.astype(np.float32), np.zeros(2, dtype=int), np.zeros(shape, dtype=np.float32), {0.0: np.eye(2, dtype=np.float32)}, meta], fn)
+            files.append(fn)
+        prefix = os.path.join(wd, f"o{it}")
+        argv = ["postprocess.py", "--output_prefix", prefix, "--peak_caller", "PeakCallerSort", "--min_distance", "0", "--number_of_peaks", "100000",
+                "--min_boundary_distance", str(dd), "--input_file"] + files
+        if not had:
+            me.normalize_under_mask = lambda **kw: None
+        try:
+            kind, val = _in_process(pp.main, argv)
+        finally:
+            if not had and hasattr(me, "normalize_under_mask"):
+                del me.normalize_under_mask
+        inp = {"shape": list(shape), "inputs": K, "d": dd}
+        if kind != "exit" or val != 0 or not os.path.exists(prefix + ".tsv"):
+            ctx.spec("postprocess.main merges several score-map results (normalisation stand-in supplied)", inp, False, f"{kind} {val}"[:300],
+                     key="merge-cli:raised")
+            continue
+        header, tab, nrow = _read_tsv(prefix + ".tsv")
+        got = {(int(float(tab["z"][i])), int(float(tab["y"][i]))): [int(round(float(tab["score"][i]))), int(round(float(tab["detail"][i])))]
+               for i in range(nrow)}
+        reqs.append(("c18.merge", dict(inputs=[[int(x) for x in m.reshape(-1)] for m in maps])))
+        cases.append((inp, got, shape, dd, nrow))
+        ctx.count(f"merge-cli:{K} inputs")
+    for (inp, got, shape, dd, nrow), ans in zip(cases, d.batch(reqs)):
+        want = {}
+        for flat, (sc, ent) in enumerate(ans):
+            z, y = divmod(flat, shape[1])
+            if dd <= z < shape[0] - dd and dd <= y < shape[1] - dd:
+                want[(z, y)] = [sc, ent]
+        ctx.agree("postprocess.main with several inputs (in-process, normalisation stand-in): merged score and entity label of every voxel in the "
+                  "window vs the model of the loop", inp,
+                  {"rows": nrow, "voxels": sorted([list(k), v] for k, v in got.items())},
+                  {"rows": len(want), "voxels": sorted([list(k), v] for k, v in want.items())})
+        ctx.distinct(("merge", inp["inputs"], inp["d"], inp["shape"][0]))
+
+
+def _cli_logic_cases(ctx, d, rng, tmp):
+    _postprocess_cases(ctx, d, rng, tmp)
+    # several --input_file: merge_outputs (not modelled - the outcome for a score-map and a peak-list result goes to the evidence as a note)
+    import argparse
+    from tme.matching_utils import write_pickle
+    from tme import Density
+    tfn = os.path.join(tmp, "ppcli", "merge_template.mrc")
+    Density(np.ones((2, 2), dtype=np.float32), sampling_rate=1.0, origin=(0, 0)).to_file(tfn)
+    cli = argparse.Namespace(template=tfn, target="target.mrc", no_centering=True, template_mask=None, target_mask=None)
+    meta = (np.zeros(2), np.zeros(2), np.ones(2), cli)
+    pair = {"score map": [np.arange(12, dtype=np.float32).reshape(3, 4), np.zeros(2, dtype=int), np.zeros((3, 4), dtype=np.float32),
+                          {0.0: np.eye(2, dtype=np.float32)}, meta],
+            "peak list": [np.array([[1, 1]]), np.eye(2)[None].astype(np.float32), np.array([1.0], dtype=np.float32), np.zeros(1), meta]}
+    for name, data in pair.items():
+        fn = os.path.join(tmp, "ppcli", "merge_" + name.replace(" ", "_") + ".pickle")
+        write_pickle(data, fn)
+        kind, val = _in_process(_script("postprocess").main, ["postprocess.py", "--output_prefix", os.path.join(tmp, "ppcli", "merged"),
+                                                              "--input_file", fn, fn])
+        ctx.note(f"postprocess.main with two --input_file ({name} results; merge_outputs is outside the modelled logic): {kind} {str(val)[:120]}")
+    _postprocess_args_cases(ctx, d, rng, tmp)
+    _background_cases(ctx, d, rng, tmp)
+    _merge_cases(ctx, d, rng, tmp)
+    _match_template_cases(ctx, d, rng, tmp)
+    _match_main_cases(ctx, d, rng, tmp)
 
 
 # ------------------------------------------------------------------------------------------------------------------
@@ -664,6 +1570,12 @@ def _evaluate(ctx, d, case):
     ctx.spec("result file holds the analyzer's four records followed by the metadata record, nothing else", inp,
              isinstance(data, list) and len(data) == 5, {"records": len(data) if isinstance(data, list) else type(data).__name__},
              key="cli:record-count" + (":stale-output" if opt.get("stale_output") else ""))
+    if isinstance(data, list) and len(data) == 5:
+        lay = d.call("c18.layout", peak_calling=bool(peak_calling), ndim=len(ns))
+        nd = [int(x.ndim) if isinstance(x, np.ndarray) else None for x in data]
+        if not (peak_calling and isinstance(data[0], np.ndarray) and data[0].size == 0):
+            ctx.agree("result tuple written by match_template.py (subprocess): ndim of every member vs the layout shared with the reader",
+                      inp, {"ndims": nd, "score_map": not peak_calling}, {"ndims": lay["ndims"], "score_map": lay["score_map"]})
     meta_ok = isinstance(meta, tuple) and len(meta) == 4
     why = None
     if meta_ok:
@@ -988,6 +1900,11 @@ def run(ctx):
     rng = ctx.rng("main")
     tmp = env.scratch()
     _pickle_cases(ctx, d, rng, tmp)
+    # (own random stream: the draws of the historical streams keep their order)
+    _cli_logic_cases(ctx, d, ctx.rng("cli-logic"), tmp)
+    if os.environ.get("PV_C18_INPROCESS_ONLY") == "1":      # development aid: the subprocess streams are skipped
+        ctx.note("PV_C18_INPROCESS_ONLY=1: subprocess streams skipped")
+        return
     nbase = ctx.budget(8, 40)
     nwide = ctx.budget(20, 88)
     cases = []
